@@ -1042,12 +1042,15 @@ qb_log_custom_close(int32_t t)
 
 	target = qb_log_target_get(t);
 
+	/* the logging thread may be writing to this target right now */
+	qb_log_thread_pause(target);
 	if (target->close) {
 		qb_atomic_int_set(&in_logger, QB_TRUE);
 		target->close(t);
 		qb_atomic_int_set(&in_logger, QB_FALSE);
 	}
 	qb_log_target_free(target);
+	qb_log_thread_resume(target);
 }
 
 static int32_t
@@ -1104,10 +1107,7 @@ qb_log_ctl2(int32_t t, enum qb_log_conf c, qb_log_ctl2_arg_t arg_not4directuse)
 		return -EBADF;
 	}
 
-	/* Starting/stopping the thread has its own locking that can interfere with this */
-	if (c != QB_LOG_CONF_THREADED) {
-		qb_log_thread_pause(&conf[t]);
-	}
+	qb_log_thread_pause(&conf[t]);
 
 	switch (c) {
 	case QB_LOG_CONF_ENABLED:
@@ -1190,9 +1190,7 @@ qb_log_ctl2(int32_t t, enum qb_log_conf c, qb_log_ctl2_arg_t arg_not4directuse)
 	}
 
 unlock_fini:
-	if (c != QB_LOG_CONF_THREADED) {
-		qb_log_thread_resume(&conf[t]);
-	}
+	qb_log_thread_resume(&conf[t]);
 	return rc;
 }
 
